@@ -178,7 +178,11 @@ def check_module(job):
                 # TryToGetNameFromEnum: first declared name, else null
                 r = ex.run(eid + "__name", [v], mem, [])
                 expect = BV(0, 64)
-                for name, val in reversed(declared):
+                first_name = {}
+                for name, val in declared:
+                    first_name.setdefault(val, name)
+                # only the first declared name of each value can be returned, so only those strings must exist
+                for val, name in reversed(list(first_name.items())):
                     if name not in straddr:
                         raise NotEncoded("string constant %r not found in the module" % name)
                     expect = z3.If(wide == BV(val, 72), BV(straddr[name], 64), expect)
